@@ -30,6 +30,8 @@ def shared_mutables(a, b):
                 if isinstance(x, list):
                     acc[id(x)] = x
                     stack.extend(x)
+                elif isinstance(x, tuple):
+                    stack.extend(x)
                 elif isinstance(x, Packet):
                     if id(x) not in acc:
                         acc[id(x)] = x
